@@ -40,3 +40,5 @@ cat $S/f/* 2>/dev/null | sort -u > $S/seen.txt
 $S/mc_cover --fieldcov-universe | sort -u > $S/universe.txt
 comm -23 $S/universe.txt $S/seen.txt | sed 's/^/NEVER-POPULATED /'
 echo "wire fields and enum values: $(wc -l < $S/universe.txt), populated by some check: $(comm -12 $S/universe.txt $S/seen.txt | wc -l)"
+# are the dumps the oracles compare sensitive to every surfaced field? (each leaf changed one at a time)
+$S/mc_cover --selftest 2>/dev/null
